@@ -17,7 +17,9 @@ for sid in ids:
         print(sid, 'patch does not apply', r.stderr[:200]); continue
     try:
         caught, undec = [], []
-        for pid in sorted(props.PROPS):
+        only = os.environ.get('MATRIX_PROPS', '').split()
+        meta['checks_run'] = only or sorted(props.PROPS)
+        for pid in (only or sorted(props.PROPS)):
             o = subprocess.run(['./check.py', pid, '--tier', 'quick'], cwd=ROOT, capture_output=True, text=True)
             vl = [l for l in o.stdout.split('\n') if l.startswith('VIOLATION')]
             if o.returncode == 1 and vl:
